@@ -261,25 +261,24 @@ fn blanks_str(n: u8) -> String {
     " ".repeat(n.min(3) as usize)
 }
 
-/// One formula through one path, judged.
-pub fn attempt(e: &Expr, blanks: &[u8], lead: u8, trail: u8, p: &Params) -> Outcome {
+/// Render the formula and cross-check the reference lexer against the generator.
+pub fn prepare(e: &Expr, blanks: &[u8], lead: u8, trail: u8) -> Result<(String, Vec<Tok>), Outcome> {
     let input = tokens(e, &identity_map);
     let text = format!("{}{}{}", blanks_str(lead), render(e, blanks), blanks_str(trail));
     match lex(&text) {
         Ok(l) => {
             if let Some(i) = first_mismatch(&input, &l) {
-                return Outcome::Harness(format!("reference lexer disagrees with the generator at token {} of {:?}: {}", i, text, toks_text(&l)));
+                return Err(Outcome::Harness(format!("reference lexer disagrees with the generator at token {} of {:?}: {}", i, text, toks_text(&l))));
             }
         }
-        Err(err) => return Outcome::Harness(format!("reference lexer rejects generated {:?}: {}", text, err)),
+        Err(err) => return Err(Outcome::Harness(format!("reference lexer rejects generated {:?}: {}", text, err))),
     }
-    let (dc, dr) = p.delta();
-    let tr = move |r: &RefNode| vec![translate_area(&r.area, dc, dr)];
-    let expected = match p.path {
-        Path::Translate => tokens(e, &tr),
-        _ => input.clone(),
-    };
-    let out = match run_library(e, &text, p) {
+    Ok((text, input))
+}
+
+/// Judge what the library made of `text`.
+pub fn judge_output(text: &str, input: &[Tok], expected: &[Tok], lib: Result<Result<String, String>, PanicInfo>) -> Outcome {
+    let out = match lib {
         Err(pi) => {
             let mode = if pi.msg.contains("umya_verif: tokenizer made no progress") { "no-termination".to_string() } else { format!("panic:{}", pi.site()) };
             return Outcome::Fail { mode, tok_class: "formula".into(), detail: format!("{:?} -> {}", text, pi.short()) };
@@ -293,7 +292,7 @@ pub fn attempt(e: &Expr, blanks: &[u8], lead: u8, trail: u8, p: &Params) -> Outc
             return Outcome::Fail { mode: "unlexable-output".into(), tok_class: "formula".into(), detail: format!("{:?} -> {:?}: {}", text, out, err) };
         }
     };
-    match first_mismatch(&expected, &actual) {
+    match first_mismatch(expected, &actual) {
         None => Outcome::Pass,
         Some(i) => {
             let detail = format!(
@@ -304,10 +303,26 @@ pub fn attempt(e: &Expr, blanks: &[u8], lead: u8, trail: u8, p: &Params) -> Outc
                 expected.get(i).map(|t| format!("{:?} {:?}{}", t.kind, t.text, if t.alts.is_empty() { String::new() } else { format!(" (or {:?})", t.alts) })).unwrap_or("end".into()),
                 actual.get(i).map(|t| format!("{:?} {:?}", t.kind, t.text)).unwrap_or("end".into())
             );
-            let (mode, class) = diff_mode(&input, &expected, &actual, i);
+            let (mode, class) = diff_mode(input, expected, &actual, i);
             Outcome::Fail { mode, tok_class: class, detail }
         }
     }
+}
+
+/// One formula through one path, judged.
+pub fn attempt(e: &Expr, blanks: &[u8], lead: u8, trail: u8, p: &Params) -> Outcome {
+    let (text, input) = match prepare(e, blanks, lead, trail) {
+        Ok(x) => x,
+        Err(o) => return o,
+    };
+    let (dc, dr) = p.delta();
+    let tr = move |r: &RefNode| vec![translate_area(&r.area, dc, dr)];
+    let expected = match p.path {
+        Path::Translate => tokens(e, &tr),
+        _ => input.clone(),
+    };
+    let lib = run_library(e, &text, p);
+    judge_output(&text, &input, &expected, lib)
 }
 
 /// Failure mode and token class at the first mismatch.
@@ -352,45 +367,47 @@ fn fails(o: &Outcome) -> Option<(String, String, String)> {
 }
 
 /// Minimal failing reference features: drop qualifier, make relative, reduce to one cell, as
-/// long as the failure persists.
-fn minimise_ref(r: &RefNode, run: &dyn Fn(&Expr) -> Outcome) -> (String, String) {
-    let mut cur = r.clone();
-    let mut mode = fails(&run(&Expr::Ref(cur.clone()))).map(|f| f.0).unwrap_or("altered".into());
-    let mut keep_qual = cur.qual.is_some();
-    if cur.qual.is_some() {
-        let v = RefNode { qual: None, area: cur.area.clone() };
-        if let Some(f) = fails(&run(&Expr::Ref(v.clone()))) {
-            cur = v;
+/// long as the failure persists.  `run_ref(original, strip_qualifier, area)` runs the single
+/// reference `area` with the original's qualifier, or - if `strip_qualifier` - the
+/// semantically equivalent unqualified reference (C08: hosted on the target sheet).
+fn minimise_ref(r: &RefNode, run_ref: &dyn Fn(&RefNode, bool, &Area) -> Outcome) -> (String, String) {
+    let mut area = r.area.clone();
+    let mut strip = false;
+    let mut mode = fails(&run_ref(r, strip, &area)).map(|f| f.0).unwrap_or("altered".into());
+    let mut keep_qual = r.qual.is_some();
+    if keep_qual {
+        if let Some(f) = fails(&run_ref(r, true, &area)) {
+            strip = true;
             mode = f.0;
             keep_qual = false;
         }
     }
-    let mut keep_abs = cur.area.abs_kind() != "rel";
+    let mut keep_abs = area.abs_kind() != "rel";
     if keep_abs {
-        let v = RefNode { qual: cur.qual.clone(), area: cur.area.relative() };
-        if let Some(f) = fails(&run(&Expr::Ref(v.clone()))) {
-            cur = v;
+        let v = area.relative();
+        if let Some(f) = fails(&run_ref(r, strip, &v)) {
+            area = v;
             mode = f.0;
             keep_abs = false;
         }
     }
-    let mut keep_kind = cur.area.kind() != "cell";
+    let mut keep_kind = area.kind() != "cell";
     if keep_kind {
-        let v = RefNode { qual: cur.qual.clone(), area: cur.area.first_cell() };
-        if let Some(f) = fails(&run(&Expr::Ref(v.clone()))) {
-            cur = v;
+        let v = area.first_cell();
+        if let Some(f) = fails(&run_ref(r, strip, &v)) {
+            area = v;
             mode = f.0;
             keep_kind = false;
         }
     }
-    let mut label = if keep_kind { cur.area.kind().to_string() } else { "ref".to_string() };
+    let mut label = if keep_kind { area.kind().to_string() } else { "ref".to_string() };
     if keep_abs {
         label.push('.');
-        label.push_str(cur.area.abs_kind());
+        label.push_str(area.abs_kind());
     }
     if keep_qual {
         label.push('@');
-        label.push_str(cur.qual.as_ref().unwrap().class());
+        label.push_str(r.qual.as_ref().unwrap().class());
     }
     (label, mode)
 }
@@ -403,6 +420,7 @@ pub fn classify(
     trail: u8,
     first: (String, String, String),
     run: &dyn Fn(&Expr, &[u8], u8, u8) -> Outcome,
+    run_ref: &dyn Fn(&RefNode, bool, &Area) -> Outcome,
 ) -> (String, String) {
     let (mode0, tok_class0, detail0) = first;
     // 0. blanks
@@ -434,9 +452,8 @@ pub fn classify(
             continue;
         }
         if let Some((mode, _tc, detail)) = fails(&run(s, &[], 0, 0)) {
-            let run1 = |x: &Expr| run(x, &[], 0, 0);
             let (class, mode) = match s {
-                Expr::Ref(r) => minimise_ref(r, &run1),
+                Expr::Ref(r) => minimise_ref(r, run_ref),
                 Expr::Name { qual: Some(_), name } => {
                     let v = Expr::Name { qual: None, name: name.clone() };
                     match fails(&run(&v, &[], 0, 0)) {
@@ -534,7 +551,11 @@ fn check(c: &Case, obs: &mut Obs) -> Verdict {
         Outcome::Harness(d) => Verdict::fail("harness/generator-lexer-disagree", d),
         Outcome::Fail { mode, tok_class, detail } => {
             let run = |x: &Expr, b: &[u8], l: u8, t: u8| attempt(x, b, l, t, &p);
-            let (key, detail) = classify(&e, &c.blanks, c.lead, c.trail, (mode, tok_class, detail), &run);
+            let run_ref = |r: &RefNode, strip: bool, a: &Area| {
+                let q = if strip { None } else { r.qual.clone() };
+                attempt(&Expr::Ref(RefNode { qual: q, area: a.clone() }), &[], 0, 0, &p)
+            };
+            let (key, detail) = classify(&e, &c.blanks, c.lead, c.trail, (mode, tok_class, detail), &run, &run_ref);
             Verdict::fail(key, detail)
         }
     }
